@@ -1,6 +1,7 @@
 package main
 
 import (
+	"fmt"
 	"go/ast"
 	"go/token"
 	"go/types"
@@ -20,6 +21,7 @@ func checkC07(c *Check) {
 	info := pp.TypesInfo
 
 	checkC07HandlerOnly(c)
+	checkC07ImportErrors(c)
 	_, isWrapper := handlerHelpers(c)
 	// ---------------- R7.2 flag writers ----------------
 	r2 := c.Rule("R7.2", "errored/Faulty have closed writer sets; Faulty := errored is the last diagnostic-capable step; checker phases mark before delivering", 8)
@@ -334,6 +336,7 @@ func checkRanges(c *Check) {
 	ra := c.Rule("R7.5a", "every AST node literal built by the parser sets its Range", 60)
 	rb := c.Rule("R7.5b", "locally acquired operands of a range are in acquisition order (start token/node acquired before the end)", 20)
 	rc := c.Rule("R7.5c", "no empty token.Range{} reaches a diagnostic", 0)
+	checkC07RangeAfterRewind(c, rb)
 
 	hasRangeField := func(t types.Type) bool {
 		if p, ok := t.(*types.Pointer); ok {
@@ -756,4 +759,203 @@ func checkC07HandlerOnly(c *Check) {
 		})
 	})
 
+}
+
+// R7.7: a failure of the file system while an import is resolved is reported: every WalkDir callback in the frontend tests
+// its error parameter, and the branch taken for an error delivers a diagnostic.
+func checkC07ImportErrors(c *Check) {
+	L := c.L
+	r := c.Rule("R7.7", "errors of reading an imported directory are reported as diagnostics", 1)
+	n := 0
+	L.ForEachFunc(c03Pkgs, func(fi *FuncInfo) {
+		info := fi.Pkg.TypesInfo
+		ast.Inspect(fi.Decl.Body, func(x ast.Node) bool {
+			call, ok := x.(*ast.CallExpr)
+			if !ok || len(call.Args) != 2 {
+				return true
+			}
+			fn := Callee(info, call)
+			if fn == nil || fn.Name() != "WalkDir" || fn.Pkg() == nil || (fn.Pkg().Path() != "path/filepath" && fn.Pkg().Path() != "io/fs") {
+				return true
+			}
+			fl, ok := call.Args[1].(*ast.FuncLit)
+			if !ok {
+				return true
+			}
+			var params []*ast.Ident
+			for _, f := range fl.Type.Params.List {
+				params = append(params, f.Names...)
+			}
+			if len(params) != 3 {
+				return true
+			}
+			errObj := info.Defs[params[2]]
+			n++
+			key := L.QName(fi.Obj) + "|WalkDir callback"
+			reported := false
+			ast.Inspect(fl.Body, func(y ast.Node) bool {
+				is, ok := y.(*ast.IfStmt)
+				if !ok {
+					return true
+				}
+				be, ok := ast.Unparen(is.Cond).(*ast.BinaryExpr)
+				if !ok || be.Op != token.NEQ {
+					return true
+				}
+				id, ok := ast.Unparen(be.X).(*ast.Ident)
+				if !ok || info.Uses[id] != errObj || !info.Types[be.Y].IsNil() {
+					return true
+				}
+				ast.Inspect(is.Body, func(z ast.Node) bool {
+					if c2, ok := z.(*ast.CallExpr); ok {
+						if f2 := Callee(info, c2); f2 != nil {
+							q := L.QName(f2)
+							if q == "parser.(*parser).err" || q == "parser.(*parser).errVal" {
+								reported = true
+							}
+						}
+					}
+					return true
+				})
+				return true
+			})
+			r.Decide(reported, key, fl.Pos(), "the error parameter is tested and the error branch reports a diagnostic", "the callback never reports its error parameter: importing a directory that does not exist (or cannot be read) is accepted without a diagnostic, the module is not marked faulty and code generation fails later")
+			return true
+		})
+	})
+	if n == 0 {
+		r.Und("directory import", token.NoPos, "no WalkDir callback found in the frontend")
+	}
+}
+
+// R7.5d: a range built from a saved start position and the token before the cursor is only well-formed while the cursor is
+// past that start: no path may rewind the cursor to the saved position between consuming tokens and building the range.
+func checkC07RangeAfterRewind(c *Check, r *Rule) {
+	L := c.L
+	pp := L.ByRel["src/parser"]
+	info := pp.TypesInfo
+	n := 0
+	L.ForEachFunc(c03Pkgs, func(fi *FuncInfo) {
+		if fi.Pkg != pp {
+			return
+		}
+		// saved positions: locals defined as `x := p.cur`
+		saved := map[types.Object]bool{}
+		ast.Inspect(fi.Decl.Body, func(x ast.Node) bool {
+			if as, ok := x.(*ast.AssignStmt); ok && as.Tok == token.DEFINE && len(as.Lhs) == 1 && len(as.Rhs) == 1 {
+				if sel, ok := ast.Unparen(as.Rhs[0]).(*ast.SelectorExpr); ok && sel.Sel.Name == "cur" {
+					if id, ok := as.Lhs[0].(*ast.Ident); ok && info.Defs[id] != nil {
+						saved[info.Defs[id]] = true
+					}
+				}
+			}
+			return true
+		})
+		if len(saved) == 0 {
+			return
+		}
+		isRewind := func(nd ast.Node) types.Object {
+			as, ok := nd.(*ast.AssignStmt)
+			if !ok || as.Tok != token.ASSIGN || len(as.Lhs) != 1 || len(as.Rhs) != 1 {
+				return nil
+			}
+			sel, ok := ast.Unparen(as.Lhs[0]).(*ast.SelectorExpr)
+			if !ok || sel.Sel.Name != "cur" {
+				return nil
+			}
+			if id, ok := ast.Unparen(as.Rhs[0]).(*ast.Ident); ok && saved[info.Uses[id]] {
+				return info.Uses[id]
+			}
+			return nil
+		}
+		g := L.CFG(fi)
+		// fact (per function, one saved position is the common case): bit 1 = the cursor has been rewound to a saved position and
+		// nothing was consumed since
+		mf := &mustFlow{G: g, Init: 0, Transfer: func(nd ast.Node, s uint32) uint32 { return s }}
+		// may-analysis encoded as must over the complement: run a forward may-dataflow by hand
+		in := map[*cfg.Block]bool{}
+		changed := true
+		consumes := func(nd ast.Node) bool {
+			f := false
+			callsIn(nd, func(call *ast.CallExpr) {
+				if fn := Callee(info, call); fn != nil {
+					switch fn.Name() {
+					case "advance", "matchAny", "matchSeq", "consumeSeq", "consumeAny", "checkAlias", "Search", "expression", "assigneable":
+						f = true
+					}
+				}
+			})
+			return f
+		}
+		for changed {
+			changed = false
+			for _, b := range g.Blocks {
+				if !b.Live {
+					continue
+				}
+				st := in[b]
+				for _, nd := range b.Nodes {
+					if isRewind(nd) != nil {
+						st = true
+					} else if consumes(nd) {
+						st = false
+					}
+				}
+				for _, sc := range b.Succs {
+					if st && !in[sc] {
+						in[sc] = true
+						changed = true
+					}
+				}
+			}
+		}
+		_ = mf
+		for _, b := range g.Blocks {
+			if !b.Live {
+				continue
+			}
+			st := in[b]
+			for _, nd := range b.Nodes {
+				// ranges NewRange(&p.tokens[saved], p.previous()) inside this node, evaluated with the state before the node's own effects
+				ast.Inspect(nd, func(y ast.Node) bool {
+					call, ok := y.(*ast.CallExpr)
+					if !ok || len(call.Args) != 2 {
+						return true
+					}
+					fn := Callee(info, call)
+					if fn == nil || fn.Name() != "NewRange" {
+						return true
+					}
+					a0 := types.ExprString(call.Args[0])
+					a1 := types.ExprString(call.Args[1])
+					usesSaved := false
+					ast.Inspect(call.Args[0], func(z ast.Node) bool {
+						if id, ok := z.(*ast.Ident); ok && saved[info.Uses[id]] {
+							usesSaved = true
+						}
+						return true
+					})
+					if !usesSaved || !strings.Contains(a1, "previous()") {
+						return true
+					}
+					n++
+					key := L.QName(fi.Obj) + "|range from a saved position to the token before the cursor"
+					if n > 1 {
+						key += fmt.Sprintf(" #%d", n)
+					}
+					if st {
+						r.Bad(key, call.Pos(), "NewRange("+a0+", "+a1+") is built on a path on which the cursor was rewound to the saved position and nothing was consumed since: the token before the cursor lies before the start, the range is empty or reversed (the excerpt renderer panics on it)")
+					} else {
+						r.OK(key, call.Pos(), "the cursor is past the saved position on every path")
+					}
+					return true
+				})
+				if isRewind(nd) != nil {
+					st = true
+				} else if consumes(nd) {
+					st = false
+				}
+			}
+		}
+	})
 }
